@@ -697,6 +697,9 @@ class Resolver:
                 if x not in alts:
                     alts.append(x)
             return alts[0] if len(alts) == 1 else ("phi", tuple(alts))
+        # (a.zip(b) as Some).0.k -> payload of a / b
+        if t[0] == "ok" and t[1][0] == "call" and t[1][1].endswith("Option::<T>::zip") and len(t[1][2]) == 2 and name in ("0", "1") and variant is None:
+            return self._ok(t[1][2][int(name)])
         # Try::branch(x) as Continue .0  -> ok(x)
         if t[0] == "call" and t[1].endswith("::branch") and variant == "Continue":
             return self._ok(t[2][0])
@@ -1411,6 +1414,12 @@ def option_tests(fn, R, pred):
         dl = op_place(t["discr"])
         d = strip(R.place(dl)) if dl else None
         if d and d[0] == "discr" and pred(strip(d[1])):
+            # the discriminated place must be an Option (a Result of the same origin is a different test)
+            ds_ = fn.whole_defs(dl["local"]) if not dl["proj"] else []
+            if len(ds_) == 1 and ds_[0][0] == "stmt" and ds_[0][1]["k"] == "discr" and not ds_[0][1]["place"]["proj"]:
+                ty_ = fn.local_ty(ds_[0][1]["place"]["local"])
+                if ty_ not in ("?", "") and not ty_.lstrip("&").replace("mut ", "").startswith("std::option::Option"):
+                    continue
             e = switch_edges(fn, bi)
             some, none = e.get("1", e["otherwise"]), e.get("0", e["otherwise"])
             if some != none:
